@@ -16,6 +16,8 @@ OPS = [
     ("rename", "/b", "/d/b", {"b", "d"}), ("write", "/d/a", None, {"d"}),
     ("mkdir", "/d", None, {"d"}), ("rename", "/e/a", "/d/a", {"d", "e"}),          # re-using a renamed folder's old name
     ("rendir", "/d", "/m/d", {"d", "m"}), ("rendir", "/m", "/d", {"d", "m"}),        # moving a folder into another one, then that one onto the vacated name
+    ("delete", "/e/a", None, {"d", "e"}), ("rmdir", "/e", None, {"d", "e"}),          # emptying and removing a renamed folder
+    ("rename", "/x", "/a", {"a", "x"}),                                               # renaming back
 ]
 
 
@@ -108,7 +110,7 @@ def _factory(params, env=None):
                 if d[0] not in ("noop", "failed"):
                     h.real_ops += 1
                     ref_apply(ref, kind, src, dst, content)
-                h.slots(params["slots"])
+                h.slots(params["slotsper"][k] if params.get("slotsper") else params["slots"])
             h.drain()
             tl, tr = lab.tree(0), lab.tree(1)
             if tl != ref or tr != ref:
@@ -150,8 +152,10 @@ def jobs(tier):
     else:
         combos = [("oid", 1, 1, 2), ("path", 1, 1, 1), ("mixed", 1, 1, 1), ("oid-ci", 1, 1, 1), ("oid", 2, 1, "round"), ("path", 2, 1, "round"), ("oid", 2, 1, 0), ("oid", 2, 2, 0)]
     # focused families; quick: the other side does one fixed unrelated thing (create /n); thorough: anything disjoint
-    pr = {"prefixR": [6]} if q else {}
+    pr = {"prefixR": [6]} if q else {"pool": 18}
     pr4 = {"prefixR": [6]}
+    if q:
+        pr["pool"] = 18
     for f in ("oid", "path"):
         if f == "oid" or not q:
             # one side renames a folder and keeps working under both names (3 operations)
@@ -161,8 +165,16 @@ def jobs(tier):
         # two synchronised folders: one is moved into the other, which then takes the vacated name
         sl = 1 if (f == "oid" or not q) else 0
         out.append({"harness": "merge", "params": dict(pr4, flavour=f, base=4, nl=2, nr=1, slots=sl, prefixL=[16]), "label": "%s/base4/2+1-ops/%d-slot/first=rendir-d-m" % (f, sl)})
+    # fixed stories on one side under deeper schedules (slots after each position of the interleaved sequence); the other side creates /n
+    for f in ("oid", "path"):
+        out.append({"harness": "merge", "params": dict(flavour=f, nl=3, nr=1, slots=0, slotsper=[2, 1, 1, 1], prefixL=[8, 18, 19], prefixR=[6]),
+                    "label": "%s/story=folder-renamed-emptied-removed" % f})
+        out.append({"harness": "merge", "params": dict(flavour=f, nl=2, nr=1, slots=0, slotsper=[2, 1, 1], prefixL=[2, 20], prefixR=[6]),
+                    "label": "%s/story=renamed-and-back" % f})
     for f, nl, nr, sl in combos:
         p = {"flavour": f, "nl": nl, "nr": nr, "slots": sl}
+        if not q:
+            p["pool"] = 18
         if sl == "round":
             p.update(slots=1, slotmode="round")
         if q:
